@@ -9,7 +9,7 @@ generate_facts = extract_facts.generate
 
 ID = "C14"
 LEAN_MODULES = ["Econf.Props.C14", "Econf.Props.Struct"]
-THEOREMS = ["Econf.Struct.C14_fixed_buffers"]
+THEOREMS = ["Econf.C14_split_join", "Econf.C14_split_total", "Econf.C14_ext_comments", "Econf.C14_ext_values", "Econf.C14_copy_fields", "Econf.C14_comment_lines_length", "Econf.C14_write_value", "Econf.Struct.C14_fixed_buffers"]
 SHRINK = False
 RULE = ("every field kind (key, value, continuation line, section, comment before, comment after, file name, directory name, option "
         "string, econftool --delimiters) x lengths {1, BUFSIZ-2..BUFSIZ+2, 2*BUFSIZ, 64Ki, 1Mi (thorough)} and {NAME_MAX-1, NAME_MAX}, "
